@@ -18,9 +18,10 @@ def run(repo, chk):
     chk.note_undecided('"merging a result with itself changes nothing" (values)', 'the confidence values themselves (C16)')
     R = Rules(repo, chk)
     refcheck.run_all(R, repo, chk, 'RECUR', 'mergeocr_ref.py', WHAT)
+    refcheck.run_all(R, repo, chk, 'RECUR', 'conf_ref.py', {'get_line_confidence': 'the per-character confidences whose mean is compared'}, only=('get_line_confidence', 'get_line_confidence_transformer'))
     R.run('SIBLING', sibling, repo, Soft(chk))
     chk.expect('SIBLING', 6)
-    chk.expect('RECUR', 2)
+    chk.expect('RECUR', 4)
 
 
 def sibling(repo, chk):
